@@ -28,8 +28,7 @@ ASSUMPTIONS = [
     "REAL: CPython's struct '<f' packing is compared with Flocq's binary_normalize (round to nearest even)",
 ]
 
-ENC_DEV = {1: "array-of-n_bytes", 2: "bit-array-overlong", 3: "STRINGN-non-ascii", 4: "DATE_AND_TIME-uniform-call"}
-DEC_DEV = {11: "wide-string-count-as-bytes", 12: "STRINGN", 13: "array-of-n_bytes", 14: "unbounded-bit-array", 15: "StructTag-order"}
+ENC_DEV = {2: "bit-array-overlong"}
 
 INT8 = ["SINT", "USINT"]
 INT16 = ["INT", "UINT", "DATE", "ITIME"]
@@ -53,16 +52,13 @@ class Ref:
         self.p.close()
 
     def wire(self, tds):
-        """{td: (wire_ty, dec_dev class)} for the given descriptors (cached)"""
+        """{td: (wire_ty, 0)} for the given descriptors (cached)"""
         new = [td for td in dict.fromkeys(tds) if td not in self._wire]
         if new:
-            outs = self.p.batch([" ".join(["wire"] + cc.ty_tokens(td)) for td in new]
-                                + [" ".join(["decdev"] + cc.ty_tokens(td)) for td in new])
+            outs = self.p.batch([" ".join(["wire"] + cc.ty_tokens(td)) for td in new])
             for i, td in enumerate(new):
-                if outs[i].startswith("ERR") or outs[len(new) + i].startswith("ERR"):
-                    self._wire[td] = (False, 0)       # a name the reference does not know
-                else:
-                    self._wire[td] = (outs[i].strip() == "1", int(outs[len(new) + i]))
+                # "ERR": a name the reference does not know
+                self._wire[td] = (outs[i].strip() == "1", 0)
         return self._wire
 
     def enc(self, cases):
@@ -143,26 +139,6 @@ def report(R, what, case, observed, expected, cls):
         R.fail(what, case, observed, expected, cls)
 
 
-def stringn_class(data):
-    """input class of a top-level STRINGN byte string (character size, count, characters)"""
-    if len(data) < 4:
-        return "header"
-    cs, cnt = struct.unpack("<HH", data[:4])
-    body = data[4:4 + cs * cnt]
-    if cs not in (1, 2, 4):
-        return "bad-size"
-    if cnt == 0:
-        return "count-0"
-    if len(data) - 4 < cs * cnt:
-        return "short"
-    if cs == 1:
-        return "size-1-non-ascii" if any(b >= 0x80 for b in body) else "size-1-ascii"
-    if cs == 2:
-        units = struct.unpack("<%dH" % cnt, body)
-        return "size-2-surrogates" if any(0xD800 <= u <= 0xDFFF for u in units) else "size-2"
-    return "size-4"
-
-
 def oracle_enc(R, ref, cases, impls, stream):
     specs = ref.enc(cases)
     for c, (sp, dev), im in zip(cases, specs, impls):
@@ -198,17 +174,7 @@ def oracle_dec(R, ref, cases, impls, stream, devs):
         if im[0] in ("hang", "crash"):
             cls = "dec:" + im[0]
         elif sp[0] == "trunc":
-            cls = "dec:truncated-buffer"
-        elif dev == 12:
-            sub = stringn_class(c[2]) if c[1] == E("STRINGN") else "nested"
-            if sub == "size-2-surrogates":
-                # UTF-16 surrogate units: the fixed-width reference and UTF-16 read them differently and the
-                # documents do not say which is meant; no demand
-                R.count("unspecified_input", "STRINGN:size-2-surrogates")
-                continue
-            cls = "dec:STRINGN:" + sub
-        elif dev:
-            cls = "dec:" + DEC_DEV.get(dev, str(dev))
+            cls = "dec:unbounded-array-element-cut-short"
         else:
             cls = "dec:reference-value"
         exp = list(sp) if sp[0] == "ok" else ["rejected (%s)" % sp[0]]
@@ -515,6 +481,19 @@ def targeted_cases():
     cases.append(("dec", E("STRINGN"), bytes([1, 0, 0, 0])))
     cases.append(("dec", E("STRINGN"), bytes([2, 0, 2, 0, 97, 0, 98, 0])))
     cases.append(("enc", E("STRINGN"), "é"))
+    for n in ("STRING2",):
+        cases.append(("enc", E(n), "a\U0001F600b"))
+        cases.append(("enc", E(n), "\ud800"))
+        cases.append(("dec", E(n), bytes([2, 0, 0x3D, 0xD8, 0x00, 0xDE, 7])))       # a surrogate pair = two units
+        cases.append(("dec", E(n), bytes([1, 0, 0x3D, 0xD8])))                       # a lone high surrogate
+        cases.append(("dec", E(n), bytes([1, 0, 0x00, 0xDE])))                       # a lone low surrogate
+        cases.append(("dec", E(n), bytes([2, 0, 0x3D, 0xD8, 0x41, 0x00])))           # high surrogate + ordinary unit
+    cases.append(("dec", E("STRINGN"), bytes([2, 0, 2, 0, 0x3D, 0xD8, 0x00, 0xDE])))
+    cases.append(("dec", E("STRINGN"), bytes([2, 0, 1, 0, 0x3D, 0xD8])))
+    cases.append(("dec", E("STRINGN"), bytes([4, 0, 1, 0, 0x00, 0xF6, 0x01, 0x00])))
+    cases.append(("dec", E("STRINGN"), bytes([4, 0, 1, 0, 0x00, 0xD8, 0x00, 0x00])))
+    cases.append(("dec", E("STRINGN"), bytes([4, 0, 1, 0, 0x00, 0x00, 0x11, 0x00])))
+    cases.append(("dec", E("STRINGN"), bytes([3, 0, 1, 0, 65, 66, 67])))
     cases.append(("dec", E("STRINGN"), bytes([1, 0, 1, 0, 0xE9])))
     # n_bytes
     cases.append(("enc", ("nbytes", 3), b"abc"))
